@@ -347,6 +347,9 @@ def do_check(prof: Profile, args) -> int:
             "runs_per_hour": int(rate * 3600),
             "seeds_per_hour": int(rate * 3600),
             "first_seeds": agg["first_seeds"],
+            "distinct_interleavings": {"measure": "distinct realised schedules (sequence of (client, quantum in "
+                                                  "geometer lines) grants) among the pre-empted runs",
+                                       "count": len(agg.get("sched_sigs", ()))},
             "workers": args.workers,
             "determinism_selftest": det,
             "exhaustive": False,
